@@ -337,3 +337,274 @@ Proof using HW.
   destruct Hh as [(H1 & H2 & H3 & _)|Hh]; [left; repeat split; assumption | right; exact Hh].
 Qed.
 End Ads.
+
+(* ---------- E. no authority: "scheme:/path" and "scheme:opaque" ---------- *)
+Lemma scheme_out_is_scheme_char c : scheme_out_char c = true -> scheme_char c = true.
+Proof. unfold scheme_out_char, scheme_char, is_alnum, is_alpha, is_lower, is_upper, is_digit. lia. Qed.
+
+Lemma scheme_pre_of_canon sch : scheme_canon sch = true -> scheme_pre_ok (nlen sch) (sch ++ [58]).
+Proof.
+  unfold scheme_canon. intros H. apply andb_true_iff in H. destruct H as [H1 H2].
+  destruct sch as [|c r]; [discriminate|]. unfold scheme_pre_ok.
+  split; [rewrite nlen_cons; lia|]. split; [|split; [|split]].
+  - exists c. split; [reflexivity|]. unfold is_alpha. rewrite H1. apply orb_true_r.
+  - rewrite nfirstn_app_exact. apply (forallb_impl scheme_out_char scheme_char); [exact scheme_out_is_scheme_char | exact H2].
+  - apply nnth_last.
+  - rewrite nlen_app. reflexivity.
+Qed.
+
+Lemma noauth_front_ok se ser0 s1 : scheme_pre_ok se ser0 -> agree_pre (se + 1) ser0 s1 -> se + 1 <= nlen s1 ->
+  forallb no_qh (nskipn (se + 1) s1) = true ->
+  front_ok (mkUrl s1 se (se + 1) (se + 1) (se + 1) HI_None None (se + 1) None None).
+Proof.
+  intros (S1 & (c0 & Sc & Sa) & S3 & S4 & S5) Hpre Hl Hq. unfold front_ok. urec.
+  split; [|split; [exact Hl|split; [exact Hq|]]].
+  - unfold scheme_ok. urec. split; [exact S1|]. split; [|split].
+    + exists c0. split; [|exact Sa]. rewrite (pre_nnth _ _ _ 0 Hpre) by lia. exact Sc.
+    + rewrite (pre_firstn _ _ _ se Hpre) by lia. exact S3.
+    + apply byte_eqb_true_iff. rewrite (pre_nnth _ _ _ se Hpre) by lia. exact S4.
+  - right. repeat split. left. reflexivity.
+Qed.
+
+Section Top.
+Variable dbg : bool.
+Variable hp hpo : list N -> result host.
+Variable hd : host -> list N.
+Variable ovr : option (list N -> list N).
+Hypothesis HW : HostWf hp hpo hd.
+
+Theorem parse_non_special_wf se ser0 l u : scheme_pre_ok se ser0 ->
+  parse_non_special dbg hp hpo hd ovr CUrlParser STNotSpecial se ser0 l = POk u -> wf_b u = true.
+Proof using HW.
+  intros Hs. pose proof Hs as (_ & _ & _ & _ & S5). unfold parse_non_special.
+  destruct (inp_split_prefix_str s_ss l) as [rm|]; [apply (ads_wf hp hpo hd HW); [reflexivity | exact Hs]|].
+  du32 (nlen ser0) ps Eps. apply to_u32_inv in Eps. destruct Eps as [-> _].
+  destruct (inp_split_prefix_char 47 l) as [rm|].
+  - destruct (parse_path dbg CUrlParser STNotSpecial false (nlen ser0) (ser0 ++ [47]) rm) as [[[s hh] rem]| |] eqn:Ep;
+      cbn [pbind]; try discriminate.
+    destruct (parse_path_shape dbg STNotSpecial false (nlen ser0) (ser0 ++ [47]) rm s hh rem eq_refl
+                ltac:(rewrite nlen_app; change (nlen [47]) with 1; lia) (nnth_last ser0 47)
+                ltac:(rewrite nskipn_app_exact; reflexivity) Ep) as (A & B & C & D & E).
+    intros H. rewrite S5 in *.
+    apply (wqf_wf ovr STNotSpecial (mkUrl s se (se + 1) (se + 1) (se + 1) HI_None None (se + 1) None None) rem u);
+      [|reflexivity|reflexivity|exact H].
+    apply (noauth_front_ok se ser0); [exact Hs | | lia | exact D].
+    eapply agree_pre_trans; [rewrite <- S5; apply agree_pre_app_r | eapply agree_pre_le; [exact A | lia]].
+  - cbn [pbind]. destruct (cbb_path_shape l ser0) as (x & Ex & Hx).
+    destruct (parse_cannot_be_a_base_path CUrlParser ser0 l) as [s1 rem]. cbn [fst] in Ex. subst s1.
+    intros H. rewrite S5 in *.
+    apply (wqf_wf ovr STNotSpecial (mkUrl (ser0 ++ x) se (se + 1) (se + 1) (se + 1) HI_None None (se + 1) None None) rem u);
+      [|reflexivity|reflexivity|exact H].
+    apply (noauth_front_ok se ser0); [exact Hs | rewrite <- S5; apply agree_pre_app_r | rewrite nlen_app; lia|].
+    rewrite <- S5. rewrite nskipn_app_exact. exact Hx.
+Qed.
+
+(* ---------- F. relative references ---------- *)
+Lemma auth_ok_pre2 a u u' : agree_pre a (ser u) (ser u') -> path_start u <= a -> a <= nlen (ser u') ->
+  scheme_end u' = scheme_end u -> username_end u' = username_end u -> host_start u' = host_start u ->
+  host_end u' = host_end u -> hosti u' = hosti u -> port u' = port u -> path_start u' = path_start u ->
+  (username_end u < a \/ byte_eqb (ser u') (username_end u) 58 = false) ->
+  auth_ok u -> auth_ok u'.
+Proof using.
+  intros H Hps Hlen E1 E2 E3 E4 E5 E6 E7 Hue (A1 & A2 & A3 & A4 & A5 & U & Hn & P).
+  unfold auth_ok, userinfo_ok, port_ok. rewrite E1, E2, E3, E4, E5, E6, E7.
+  repeat split; try assumption; try lia.
+  - destruct U as [(U1 & U2 & U3)|[(U1 & U2 & U3)|(U1 & U2)]].
+    + left. repeat split; try assumption. destruct Hue as [Hue|Hue]; [|exact Hue].
+      rewrite (pre_byte_eqb a _ _ _ _ H) by lia. exact U3.
+    + right. left. rewrite !(pre_byte_eqb a _ _ _ _ H) by lia. tauto.
+    + right. right. pose proof (byte_eqb_lt _ _ _ U1). rewrite !(pre_byte_eqb a _ _ _ _ H) by lia. tauto.
+  - unfold port_ok in P. destruct (port u) as [p|]; [|exact P].
+    destruct P as (P1 & P2 & P3 & P4).
+    assert (host_end u < a) as Hhe by (pose proof (byte_eqb_lt _ _ _ P1); lia).
+    rewrite (pre_byte_eqb a _ _ _ _ H) by lia.
+    rewrite (pre_piece a _ _ _ _ H) by lia. tauto.
+Qed.
+
+(* a new path behind the front of a well-formed base *)
+Lemma base_front_ok b s : wf_b b = true -> agree_pre (path_start b) (ser b) s -> nnth s (path_start b) = Some 47 ->
+  forallb no_qh (nskipn (path_start b) s) = true ->
+  front_ok (url_with b s None None).
+Proof using.
+  intros W Hpre H47 Hq. pose proof (wf_se_lt_ps b W) as Hse. pose proof (nnth_lt _ _ _ H47) as Hl.
+  pose proof W as W0. apply wf_b_iff in W0. destruct W0 as (S & AU & _).
+  unfold front_ok, url_with. urec. split; [|split; [lia|split; [exact Hq|]]].
+  - apply (scheme_ok_pre (path_start b) b); [exact Hpre | exact Hse | reflexivity | exact S].
+  - destruct (has_authority_b b) eqn:Ha.
+    + left. destruct AU as [AU _]. pose proof (wf_auth_facts b W Ha) as F.
+      pose proof (af_ue F); pose proof (af_hs F); pose proof (af_he F); pose proof (af_ps F).
+      split; [|split; [|right; exact H47]].
+      * rewrite <- Ha. apply (has_authority_b_pre (path_start b)); [exact Hpre | lia | reflexivity].
+      * assert (username_end b < path_start b \/ byte_eqb s (username_end b) 58 = false) as Hue.
+        { destruct (N.eq_dec (username_end b) (path_start b)) as [E|E]; [|left; lia].
+          right. rewrite E. apply byte_eqb_false_of. congruence. }
+        exact (auth_ok_pre2 (path_start b) b
+                 (mkUrl s (scheme_end b) (username_end b) (host_start b) (host_end b) (hosti b) (port b) (path_start b) None None)
+                 Hpre (N.le_refl _) ltac:(urec; lia) eq_refl eq_refl eq_refl eq_refl eq_refl eq_refl eq_refl Hue AU).
+    + right. pose proof (wf_noauth_facts b W Ha) as F.
+      split; [exact (nf_ue F)|]. split; [exact (nf_hs F)|]. split; [exact (nf_he F)|].
+      split; [exact (nf_host F)|]. split; [exact (nf_port F)|].
+      destruct (nf_ps F) as [P|(P1 & P2 & P3 & _)]; [left; exact P|]. right.
+      apply byte_eqb_nnth in P2. apply byte_eqb_nnth in P3.
+      split; [exact P1|]. rewrite !(pre_nnth _ _ _ _ Hpre) by lia. split; assumption.
+Qed.
+
+(* the base without its fragment, and without query and fragment *)
+Lemma base_cut_fragment_wf b : wf_b b = true -> wf_b (url_with b (b_before_fragment b) (query_start b) None) = true
+  /\ fragment_start (url_with b (b_before_fragment b) (query_start b) None) = None.
+Proof using.
+  intros W. split; [|reflexivity]. unfold b_before_fragment. destruct (fragment_start b) as [f|] eqn:Ef.
+  - destruct (cut_fragment_step false b f W Ef) as (W' & _). exact W'.
+  - destruct b as [s se ue hs he hi pt ps qs fs]. cbn in *. subst fs. exact W.
+Qed.
+
+Lemma base_cut_query_wf b : wf_b b = true -> wf_b (url_with b (b_before_query b) None None) = true.
+Proof using.
+  intros W. destruct (bq_shape b W) as (Ebq & P1 & P2). rewrite Ebq.
+  pose proof (qf_facts_of b W) as (_ & _ & _ & Q4 & _).
+  apply (tail_wf b (url_with b (nfirstn (path_end b) (ser b)) None None) (path_end b)); try assumption.
+  - repeat split.
+  - unfold url_with. urec. apply agree_pre_trunc.
+  - intros E1 E3. assert (has_authority_b b = false) as Ha.
+    { destruct (has_authority_b b) eqn:Ha; [|reflexivity]. pose proof (wf_auth_facts b W Ha) as F. pose proof (af_ue F). lia. }
+    exact (wf_marker_in_path b W Ha E3).
+  - unfold url_with. urec. rewrite nlen_nfirstn by exact P2. lia.
+  - left. unfold url_with. urec. rewrite nlen_nfirstn by exact P2. reflexivity.
+  - unfold qf_ok, path_end, url_with. urec. repeat split.
+    rewrite nlen_nfirstn by exact P2. fold (path_end b).
+    replace (path_end b) with (path_start b + (path_end b - path_start b)) at 2 by lia.
+    rewrite nskipn_nfirstn_comm. rewrite nfirstn_nfirstn by lia. exact Q4.
+Qed.
+
+Lemma fragment_only_wf b l u : wf_b b = true -> fragment_only b l = POk u -> wf_b u = true.
+Proof using.
+  intros W. unfold fragment_only. du32 (nlen (b_before_fragment b)) fs E. apply to_u32_inv in E. destruct E as [-> _].
+  intros H. inversion H; subst u. destruct (base_cut_fragment_wf b W) as [W1 F1].
+  rewrite parse_fragment_text. rewrite <- app_assoc. cbn [app].
+  destruct (add_fragment_step false _ (tnl_text T_FRAGMENT match inp_next l with Some (_, r) => r | None => [] end) W1 F1) as (W2 & _).
+  exact W2.
+Qed.
+
+(* the path-relative arm: the base path without its last segment *)
+Lemma pop_base_shape st b (l : list N) s1 : wf_b b = true -> st_is_file st = false ->
+  nnth (ser b) (scheme_end b + 1) = Some 47 -> inp_is_empty l = false ->
+  pop_path st (path_start b) (b_before_query b) = POk s1 ->
+  let s2 := if (nlen s1 =? path_start b) && (st_is_special (scheme_type_of (b_scheme b)) || negb (inp_is_empty l))
+            then s1 ++ [47] else s1 in
+  agree_pre (path_start b) (ser b) s2 /\ path_start b + 1 <= nlen s2 /\ nnth s2 (path_start b) = Some 47
+  /\ forallb no_qh (nskipn (path_start b) s2) = true.
+Proof using hp hpo.
+  intros W Hnf Hs He Hpop s2.
+  destruct (pop_base_ok hp hpo st b l W Hnf Hs He) as (s1' & Epop & I2 & H2). cbv zeta in I2, H2.
+  rewrite Hpop in Epop. inversion Epop; subst s1'. fold s2 in I2, H2.
+  destruct (bq_shape b W) as (Ebq & P1 & P2). pose proof (path_start_le_len b W) as PL.
+  pose proof (qf_facts_of b W) as (_ & _ & _ & Q4 & _).
+  assert (nlen (nfirstn (path_start b) (ser b)) = path_start b) as Lp by (apply nlen_nfirstn; exact PL).
+  assert (PInv (path_start b) (path_start b) (nfirstn (path_start b) (ser b)) (b_before_query b)) as I0.
+  { rewrite Ebq. split; [apply nfirstn_nfirstn; exact P1|].
+    replace (path_end b) with (path_start b + (path_end b - path_start b)) by lia.
+    rewrite nskipn_nfirstn_comm. exact Q4. }
+  pose proof (pinv_pop_path (path_start b) (path_start b) (nfirstn (path_start b) (ser b)) (N.le_refl _) ltac:(lia) Lp st _ _ Hpop I0) as I1.
+  assert (PInv (path_start b) (path_start b) (nfirstn (path_start b) (ser b)) s2) as Is2.
+  { subst s2. destruct ((nlen s1 =? path_start b) && _); [|exact I1].
+    apply (pinv_app (path_start b) (path_start b) (nfirstn (path_start b) (ser b)) (N.le_refl _) ltac:(lia) Lp); [exact I1 | reflexivity]. }
+  destruct Is2 as [J1 J2]. destruct I2 as (_ & K2 & _ & K4 & _).
+  split; [exact J1|]. split; [lia|]. split; [exact H2 | exact J2].
+Qed.
+
+Theorem parse_relative_wf st b l u : wf_b b = true -> st_is_file st = false ->
+  nnth (ser b) (scheme_end b + 1) = Some 47 ->
+  parse_relative dbg hp hpo hd ovr CUrlParser st b l = POk u -> wf_b u = true.
+Proof using HW.
+  intros W Hnf Hs.
+  destruct (wf_scheme_facts b W) as (S1 & S2 & S3).
+  pose proof (path_start_le_len b W) as PL.
+  assert (nlen (nfirstn (path_start b) (ser b)) = path_start b) as La by (apply nlen_nfirstn; exact PL).
+  unfold parse_relative, inp_split_first. destruct (inp_next l) as [[c r]|] eqn:En.
+  2:{ intros H. inversion H; subst u. apply base_cut_fragment_wf. exact W. }
+  assert (inp_is_empty l = false) as He by (unfold inp_is_empty; rewrite En; reflexivity).
+  destruct (c =? 63).
+  { destruct (parse_query_and_fragment ovr CUrlParser st (scheme_end b) (b_before_query b) l) as [[[s qs] fs]| |] eqn:Ep;
+      cbn [pbind]; try discriminate.
+    intros H. inversion H; subst u.
+    exact (pqf_wf ovr st (scheme_end b) (url_with b (b_before_query b) None None) l s qs fs
+             (base_cut_query_wf b W) eq_refl eq_refl Ep). }
+  destruct (c =? 35); [apply fragment_only_wf; exact W|].
+  destruct ((c =? 47) || (c =? 92) && st_is_special st).
+  - destruct (inp_count_matching (fun d => (d =? 47) || (d =? 92) && st_is_special st) l) as [slashes remaining].
+    destruct (2 <=? slashes).
+    + destruct (dassert dbg (match nnth (ser b) (scheme_end b) with Some b0 => b0 =? 58 | None => false end)) as [[]| |];
+        cbn [pbind]; try discriminate.
+      assert (scheme_pre_ok (scheme_end b) (nfirstn (scheme_end b + 1) (ser b))) as Hpre.
+      { pose proof (wf_b_iff b) as [Hi _]. destruct (Hi W) as ((_ & (c0 & Sc & Sa) & S4 & _) & _).
+        apply byte_eqb_nnth in S2. unfold scheme_pre_ok. split; [exact S1|]. split; [|split; [|split]].
+        - exists c0. split; [|exact Sa]. rewrite nnth_nfirstn by lia. exact Sc.
+        - rewrite nfirstn_nfirstn by lia. exact S4.
+        - rewrite nnth_nfirstn by lia. exact S2.
+        - apply nlen_nfirstn. lia. }
+      destruct (negb (st_is_special st)); [destruct (inp_split_prefix_str s_ss l)|];
+        apply (ads_wf hp hpo hd HW); assumption.
+    + destruct (parse_path dbg CUrlParser st true (path_start b) (nfirstn (path_start b) (ser b) ++ [47]) r)
+        as [[[s hh] rem]| |] eqn:Ep; cbn [pbind]; try discriminate.
+      set (P0 := nfirstn (path_start b) (ser b)) in *.
+      assert (path_start b + 1 <= nlen (P0 ++ [47])) as G1 by (rewrite nlen_app, La; change (nlen [47]) with 1; lia).
+      assert (nnth (P0 ++ [47]) (path_start b) = Some 47) as G2 by (rewrite <- La; apply nnth_last).
+      assert (forallb no_qh (nskipn (path_start b) (P0 ++ [47])) = true) as G3
+        by (rewrite <- La; rewrite nskipn_app_exact; reflexivity).
+      destruct (parse_path_shape dbg st true (path_start b) (P0 ++ [47]) r s hh rem Hnf G1 G2 G3 Ep) as (A & B & C & D & E).
+      intros H. apply (wqf_wf ovr st (url_with b s None None) rem u); [|reflexivity|reflexivity|exact H].
+      apply base_front_ok; try assumption.
+      eapply agree_pre_trans; [apply agree_pre_nfirstn; exact PL | eapply agree_pre_le; [exact A | lia]].
+  - destruct (pop_path st (path_start b) (b_before_query b)) as [s1| |] eqn:Epop; cbn [pbind]; try discriminate.
+    destruct (pop_base_shape st b l s1 W Hnf Hs He Epop) as (J1 & J2 & J3 & J4).
+    set (s2 := if (nlen s1 =? path_start b) && (st_is_special (scheme_type_of (b_scheme b)) || negb (inp_is_empty l))
+               then s1 ++ [47] else s1) in *.
+    assert (exists X, (match c with
+                       | 47 => parse_path dbg CUrlParser st true (path_start b) s2 r
+                       | _ => parse_path dbg CUrlParser st true (path_start b) s2 l
+                       end) = parse_path dbg CUrlParser st true (path_start b) s2 X) as [X EX].
+    { destruct (N.eq_dec c 47) as [->|Hc]; [exists r; reflexivity|]. exists l.
+      destruct c as [|p]; [reflexivity|]. do 6 (destruct p as [p|p|]; try reflexivity). congruence. }
+    cbv beta iota. rewrite EX.
+    destruct (parse_path dbg CUrlParser st true (path_start b) s2 X) as [[[s hh] rem]| |] eqn:Ep; cbn [pbind]; try discriminate.
+    destruct (parse_path_shape dbg st true (path_start b) s2 X s hh rem Hnf J2 J3 J4 Ep) as (A & B & C & D & E).
+    intros H. apply (wqf_wf ovr st (url_with b s None None) rem u); [|reflexivity|reflexivity|exact H].
+    apply base_front_ok; try assumption.
+    eapply agree_pre_trans; [exact J1 | eapply agree_pre_le; [exact A | lia]].
+Qed.
+
+(* ---------- G. top level ---------- *)
+Theorem parse_with_scheme_wf base sch l u :
+  match base with Some b => base_ok b = true | None => True end ->
+  st_is_file (scheme_type_of sch) = false -> scheme_canon sch = true ->
+  parse_with_scheme dbg hp hpo hd ovr base sch l = POk u -> wf_b u = true.
+Proof using HW.
+  intros Hb Hnf Hc. pose proof (scheme_pre_of_canon sch Hc) as Hpre.
+  unfold parse_with_scheme. du32 (nlen sch) se E. apply to_u32_inv in E. destruct E as [-> _].
+  destruct (scheme_type_of sch) eqn:Est; [discriminate Hnf | |].
+  - destruct (inp_count_matching is_slash_or_bslash l) as [slashes remaining].
+    destruct base as [b|]; [|apply (ads_wf hp hpo hd HW); [reflexivity | exact Hpre]].
+    destruct ((slashes <? 2) && list_eqb (b_scheme b) sch) eqn:Ec; [|apply (ads_wf hp hpo hd HW); [reflexivity | exact Hpre]].
+    apply andb_true_iff in Ec. destruct Ec as [_ Ec]. apply list_eqb_spec in Ec.
+    unfold base_ok in Hb. apply andb_true_iff in Hb. destruct Hb as [W Hb]. rewrite Ec, Est in Hb. cbn in Hb.
+    match goal with |- pbind ?e _ = _ -> _ => destruct e as [[]| |]; cbn [pbind]; try discriminate end.
+    apply parse_relative_wf; [exact W | reflexivity | apply byte_eqb_nnth; exact Hb].
+  - apply parse_non_special_wf. exact Hpre.
+Qed.
+
+Theorem parse_url_wf base input u :
+  match base with Some b => base_ok b = true | None => True end ->
+  file_involved base input = false ->
+  parse_url dbg hp hpo hd ovr base input = POk u -> wf_b u = true.
+Proof using HW.
+  intros Hb Hk. unfold parse_url. unfold file_involved in Hk.
+  destruct (parse_scheme CUrlParser (input_new_trim_c0 input)) as [[sch rem]|] eqn:Es.
+  - apply parse_with_scheme_wf; [exact Hb | exact Hk | exact (parse_scheme_out _ _ _ Es)].
+  - destruct base as [b|]; [|discriminate].
+    unfold base_ok in Hb. apply andb_true_iff in Hb. destruct Hb as [W _].
+    destruct (inp_starts_with_char 35 (input_new_trim_c0 input)); [apply fragment_only_wf; exact W|].
+    rewrite (cannot_be_a_base_eval b W).
+    destruct (byte_eqb (ser b) (scheme_end b + 1) 47) eqn:Eb; cbn [negb]; [|discriminate].
+    rewrite (not_file_scheme _ Hk). apply parse_relative_wf; [exact W | apply not_file_scheme; exact Hk | apply byte_eqb_nnth; exact Eb].
+Qed.
+End Top.
